@@ -20,6 +20,8 @@ import (
 	"strings"
 	"time"
 
+	"github.com/gcash/bchd/chaincfg/chainhash"
+	"github.com/gcash/bchd/wire"
 	"github.com/gcash/bchutil/gcs"
 
 	"verif/harness/internal/vh"
@@ -56,6 +58,71 @@ func (p gcsProbe) replay(op string) func() interface{} {
 		}
 		return map[string]interface{}{"probe": q, "op": op}
 	}
+}
+
+// merkleProbe: a merkle-block message whose declared transaction count is huge and whose body is tiny.
+// These run in the capped child as well: code that sizes anything by the declared count must not be
+// able to exhaust the machine.
+type merkleProbe struct {
+	Stream       string `json:"stream"`
+	Transactions uint32 `json:"transactions"`
+	NumHashes    int    `json:"num_hashes"`
+	HashByte     byte   `json:"hash_fill_byte"`
+	FlagsHex     string `json:"flags_hex"`
+	Note         string `json:"note,omitempty"`
+}
+
+type risky struct {
+	Entry  string       `json:"entry"`
+	GCS    *gcsProbe    `json:"gcs,omitempty"`
+	Merkle *merkleProbe `json:"merkle,omitempty"`
+}
+
+func (m merkleProbe) msg() *wire.MsgMerkleBlock {
+	msg := &wire.MsgMerkleBlock{Transactions: m.Transactions}
+	for i := 0; i < m.NumHashes; i++ {
+		var h chainhash.Hash
+		for j := range h {
+			h[j] = m.HashByte + byte(i)
+		}
+		msg.Hashes = append(msg.Hashes, &h)
+	}
+	msg.Flags, _ = hex.DecodeString(m.FlagsHex)
+	return msg
+}
+
+func merkleProbes(rng *vh.RNG, thorough bool) []merkleProbe {
+	r := rng.Fork("merkle-huge")
+	var out []merkleProbe
+	for _, nt := range []uint32{1 << 22, 1 << 24, 1 << 26, 1 << 28, 1 << 31, 0xfffffffe, 0xffffffff} {
+		for _, nh := range []int{0, 1, 3} {
+			for _, fl := range []string{"", "00", "01", "ff", "ffffffffffffff"} {
+				out = append(out, merkleProbe{Stream: "structured", Transactions: nt, NumHashes: nh, HashByte: r.Byte(), FlagsHex: fl,
+					Note: "declared transaction count far beyond what the hashes and flag bits can describe"})
+			}
+		}
+	}
+	n := 40
+	if thorough {
+		n = 400
+	}
+	for i := 0; i < n; i++ {
+		out = append(out, merkleProbe{Stream: "random", Transactions: r.U32(), NumHashes: r.Intn(6), HashByte: r.Byte(), FlagsHex: hex.EncodeToString(r.Bytes(r.Intn(6)))})
+	}
+	return out
+}
+
+func riskyProbes(rng *vh.RNG, thorough bool) []risky {
+	var out []risky
+	for _, p := range gcsProbes(rng, thorough) {
+		p := p
+		out = append(out, risky{Entry: "gcs." + p.Form + "+queries", GCS: &p})
+	}
+	for _, m := range merkleProbes(rng, thorough) {
+		m := m
+		out = append(out, risky{Entry: "merkleblock.ExtractMatches", Merkle: &m})
+	}
+	return out
 }
 
 func gcsProbes(rng *vh.RNG, thorough bool) []gcsProbe {
@@ -256,7 +323,7 @@ func gcsChildMain() {
 		emit("H %d %s\n", cur, j)
 		os.Exit(4)
 	})
-	probes := gcsProbes(vh.NewRNG(seed), thorough)
+	probes := riskyProbes(vh.NewRNG(seed), thorough)
 	for i, p := range probes {
 		if i < skip {
 			continue
@@ -264,7 +331,11 @@ func gcsChildMain() {
 		cur = i
 		j, _ := json.Marshal(p)
 		emit("B %d %s\n", i, j)
-		runGCSProbe(p)
+		if p.GCS != nil {
+			runGCSProbe(*p.GCS)
+		} else if p.Merkle != nil {
+			callMerkle(p.Merkle.Stream, p.Merkle.msg())
+		}
 		emit("E %d %d\n", i, rep.Evaluations)
 	}
 	if skip == 0 || skip <= len(probes) {
@@ -309,9 +380,9 @@ func gcsChildMain() {
 func runGCS() {
 	exe, err := os.Executable()
 	fatal(err)
-	total := len(gcsProbes(vh.NewRNG(cfg.Seed), cfg.Thorough()))
-	rep.Extra["gcs_probes"] = total
-	rep.Extra["gcs_child"] = fmt.Sprintf("re-executed harness under `ulimit -v %d` (KiB) with a timeout; crash of the child = violation with the probe as replay", gcsMemCapKiB)
+	total := len(riskyProbes(vh.NewRNG(cfg.Seed), cfg.Thorough()))
+	rep.Extra["child_process_probes"] = total
+	rep.Extra["child_process"] = fmt.Sprintf("GCS probes and merkle-block messages with huge declared counts run in the re-executed harness under `ulimit -v %d` (KiB) with a timeout; crash of the child = violation with the probe as replay", gcsMemCapKiB)
 	skip := 0
 	var gcsScale interface{}
 	for attempt := 0; attempt < 6 && skip <= total; attempt++ {
@@ -390,21 +461,26 @@ func runGCS() {
 		}
 		entry := "gcs"
 		var pr struct {
-			Form  string `json:"form"`
-			Scale string `json:"scale"`
+			Entry  string          `json:"entry"`
+			Merkle json.RawMessage `json:"merkle"`
+			Scale  string          `json:"scale"`
 		}
 		json.Unmarshal(openReplay, &pr)
 		op := lastOp(full)
-		if op != "" {
+		how := "gcs.FromBytes/FromNBytes on the probe, then Match, MatchAny, ZipMatchAny, HashMatchAny with the probe's key and queries"
+		if len(pr.Merkle) > 0 {
+			entry = "merkleblock.ExtractMatches"
+			how = "merkleblock.NewMerkleBlockFromMsg on a wire.MsgMerkleBlock with these fields (hash i filled with byte hash_fill_byte+i), then ExtractMatches"
+		} else if op != "" {
 			entry = "gcs." + op
 		} else if pr.Scale != "" {
 			entry = "gcs." + pr.Scale
-		} else if pr.Form != "" {
-			entry = "gcs." + pr.Form + "+queries"
+		} else if pr.Entry != "" {
+			entry = pr.Entry
 		}
 		rep.Violate("C08:"+entry+":"+kind, entry+": "+what,
 			map[string]interface{}{"probe": openReplay, "probe_index": open, "child_exit": fmt.Sprint(werr), "child_stderr_head": se, "hang": hang,
-				"how": "gcs.FromBytes/FromNBytes on the probe, then Match, MatchAny, ZipMatchAny, HashMatchAny with the probe's key and queries"})
+				"how": how})
 		if open < 0 {
 			break
 		}
